@@ -32,7 +32,8 @@ def obligations(ctx):
         tag = 'dbg' if oc else 'rel'
         for k in list(OPS) + ['Negative']:
             leaves = [DecLeaf('a'), DecLeaf('b')] if k in OPS else [DecLeaf('a')]
-            obs.append(DecimalArm('C07', k, (k,) + tuple(leaves), (lambda v, k=k: dec_ref(k, v)), oc=oc, label='decimal/%s/%s' % (k, tag)))
+            ob = DecimalArm('C07', k, (k,) + tuple(leaves), (lambda v, k=k: dec_ref(k, v)), oc=oc, label='decimal/%s/%s' % (k, tag)); ob.differential = True
+            obs.append(ob)
         # nested: an undefined inner operation makes the whole expression Err
         for outer in ('Add', 'Multiply'):
             for inner in ('Divide', 'Add'):
@@ -44,7 +45,8 @@ def obligations(ctx):
                         mid = dec_op(OPS[inner], v[0], v[1])
                         for c2, o2 in dec_ref(outer, [mid, v[2]]): out.append((b_and(cond, c2), o2))
                     return out
-                obs.append(DecimalArm('C07', '%s(%s)' % (outer, inner), (outer, (inner, a, b), c), ref, oc=oc, label='decimal/%s(%s)/%s' % (outer, inner, tag)))
+                ob = DecimalArm('C07', '%s(%s)' % (outer, inner), (outer, (inner, a, b), c), ref, oc=oc, label='decimal/%s(%s)/%s' % (outer, inner, tag)); ob.differential = True
+                obs.append(ob)
         # literals reach Decimal::from_str as text of exactly their value and scale (T layer)
         lens = [1, 2, 5, 17, 28] if ctx.tier == 'quick' else list(range(1, 30))
         for n in lens:
